@@ -200,8 +200,10 @@ def check_config(ctx, drv, cfg, L2, max_index, case_out=None, sibling=False):
                 leg_reached = False
                 break
             if len(r1[5]) != i + 1 or [tuple(map(repr, x)) for x in stream_of(r1)] != [tuple(map(repr, x)) for x in stream[:i + 1]]:
+                # (m) the disagreement with the model does not retire the case: wherever the first leg stopped, continuing it
+                # must still end where the single run ends -- the oracle below keeps running on the implementation's own output
                 corr("interrupted-run-stops-at-index", "stopped after %d evaluations" % len(r1[5]), "stop1 i=%d" % i, sub)
-                continue
+                pred = None
             reent, before, after, info = reentrance_probe(sa, r1)
             tags["reentrant"] = reent
             # signature of the accumulated volumes: the re-evaluated error is exactly twice the recorded one
@@ -455,6 +457,8 @@ def run(ctx):
             cfg.pop("grid", None)          # C13's extra families (non-nested grids, recalculate_frequently) are not part of
             cfg.pop("recalc", None)        # the resume protocol
             cfg.pop("eval_points", None)
+            for key in ("operation", "ref_route", "uq_moments"):
+                cfg.pop(key, None)
         if cfg["ref"] == "partial_zero":
             cfg["ref"] = "exact"
         # every leg (and the single run it is compared with) ends with evaluate_final_combi(): whatever that recomputation
@@ -481,7 +485,7 @@ def run(ctx):
         ctx.count("strategy_" + cfg["strategy"]); ctx.count("ref_" + cfg["ref"]); ctx.count("L2_" + ("max" if L2["tol"] < 0 else ("tol+min" if L2["tol"] >= 1e9 else ("tol" if L2["min"] <= 1 else "tol<min"))))
         ctx.count("cache_%s" % cfg.get("cache", True))
         check_config(ctx, drv, cfg, L2, 10 if deep else max_index)
-        if (len(ctx.violations) + len(ctx.corr_breaks)) >= ctx.max_reports:
+        if len(ctx.violations) >= ctx.max_reports:      # (m) only failing inputs end the search early
             break
 
 
